@@ -133,7 +133,7 @@ fn emit_entries<W: Write>(out: &mut W, r: &mut Rng, next: &mut usize, vals: &[f6
 
 pub fn gen_c13<W: Write>(out: &mut W, thorough: bool, seed: u64) {
     let mut r = Rng::new(seed ^ 0xC13);
-    let n_sys = if thorough { 40000 } else { 400 };
+    let n_sys = if thorough { 6000 } else { 400 };
     for i in 0..n_sys {
         let n = r.range(1, if i % 7 == 0 { 8 } else { 5 }) as usize;
         let lsq = r.chance(1, 4);
